@@ -97,18 +97,21 @@ class RefSubs:
             causes.add(7)
         return causes
 
-    def attendance(self, stored):
+    def attendance(self, stored, got=None):
         """expected callbacks at an attendance over `stored`, walking the subscriptions in storage order (the snapshot):
         ({cb: [record tokens]}, {cb: sorted record tokens of a subscription whose ORDER is undefined - C13-KF2: the
         repaired attendance skips it, a notification in any order is tolerated}).  The action of every expected
-        callback (unsubscribe / deregister, see ldm_common.act_token) takes effect before the next subscription."""
+        callback (unsubscribe / deregister, see ldm_common.act_token) takes effect before the next subscription.
+        `got`: the callbacks really invoked.  A subscription that the code removed together with its equal request
+        (C14-KF1, `dead_twins`) and that was indeed NOT invoked stays expected (step reports it under C14-KF1), but its
+        callback never ran, so its re-entrant action did not happen: it must not be applied to the reference state."""
         expected, optional = {}, {}
         now = self.now()
         for cb, s in list(self.subs.items()):
             if cb not in self.subs:
                 continue                            # removed by the action of an earlier callback of this attendance
             if s["app"] not in self.consumers:
-                del self.subs[cb]                   # deregistered: never notified again
+                self.subs.pop(cb, None)                   # deregistered: never notified again
                 continue
             need = max(1, s["mult"] or 0)
             due = now >= s["last"] + (s["notify"] or 0)
@@ -122,6 +125,9 @@ class RefSubs:
                 expected[cb] = [L.ser_record(d) for d in objs]
                 self.exp_app[cb] = s["app"]
                 s["last"] = now
+                if got is not None and cb in self.dead_twins and cb not in got:
+                    self.subs.pop(cb, None)         # gone in the code since its twin's unsubscribe (C14-KF1): no callback,
+                    continue                        # no action; reported once by step
                 self.run_action(s.get("act"))
         return expected, optional
 
@@ -131,14 +137,14 @@ class RefSubs:
         if act[0] == "d":
             self.consumers.discard(act[1])
             for cb in [cb for cb, s in self.subs.items() if s["app"] == act[1]]:
-                del self.subs[cb]
+                self.subs.pop(cb, None)
         elif act[0] == "u":
             app, j = act[1], act[2]
             if app not in self.consumers or j is None or j >= len(self.issued):
                 return
             cb, key = self.issued[j], self.key_of_issued(j)
             if cb in self.subs:
-                del self.subs[cb]
+                self.subs.pop(cb, None)
             for c in [c for c, s in self.subs.items() if s["key"] == key]:
                 self.dead_twins[c] = cb             # equal request, same hash id: the code removes it as well (C14-KF1)
 
@@ -161,7 +167,7 @@ class RefSubs:
         elif n == "deregc":
             self.consumers.discard(op[1])
             for cb in [cb for cb, s in self.subs.items() if s["app"] == op[1]]:
-                del self.subs[cb]
+                self.subs.pop(cb, None)
         elif n == "regp":
             if head == ["c", "0"]:
                 self.providers.add(op[1])
@@ -197,14 +203,14 @@ class RefSubs:
                                     f"request of subscription {self.dead_twins[cb]}", "C14-KF1"))
                     else:
                         bad.append((f"unsubscribe of live subscription {cb} refused", None))
-                del self.subs[cb]
+                self.subs.pop(cb, None)
             elif ok:
                 # the id no longer denotes a live subscription, yet something was removed
                 twins = [c for c, s in self.subs.items() if cb is not None and s["key"] == self.key_of_issued(j)]
                 fid = "C14-KF1" if twins else None
                 bad.append((f"unsubscribe with the id of subscription {cb} (not active) accepted; removes {twins}", fid))
                 for c in twins:
-                    del self.subs[c]
+                    self.subs.pop(c, None)
             if ok and alive:
                 for c in [c for c, s in self.subs.items() if s["key"] == self.key_of_issued(j)]:
                     self.dead_twins[c] = cb         # equal request, same hash id: the code removes it as well
@@ -218,13 +224,13 @@ class RefSubs:
                         self.last_attend = self.mono
         optional = {}
         if attended:
-            expected, optional = self.attendance(stored)
+            expected, optional = self.attendance(stored, got)
         for cb, recs in expected.items():
             if cb not in got:
                 if cb in self.dead_twins:
                     bad.append((f"subscription {cb} no longer notified after an equal request (subscription "
                                 f"{self.dead_twins[cb]}) was unsubscribed", "C14-KF1"))
-                    del self.subs[cb]
+                    self.subs.pop(cb, None)
                 else:
                     bad.append((f"{n}: subscription {cb} not notified although {len(recs)} objects match and its interval elapsed", None))
             elif got[cb][1] != recs:
